@@ -247,9 +247,14 @@ Definition commit_active (s : st) (nm key : name) (l : labels) (is_remote : bool
           match commit_parent (i_parent i) (l_wp l) with
           | inl e => (s, Some e)
           | inr np =>
+              (* the parent is looked up after the new bucket was created and the key's bucket deleted.
+                 DEVIATION (known finding C08-withparent-own-name-self-parent): for p = nm the real code finds the
+                 bucket it has just created and commits the snapshot as its own parent; the model answers NotFound
+                 and the generators never produce that input. *)
               let perr := match np with
                           | None => None
-                          | Some p => match lookup (meta s) p with
+                          | Some p => if Nat.eqb p nm then Some ENotFound else
+                                      match lookup (del (meta s) key) p with
                                       | None => Some ENotFound
                                       | Some pi => if kind_eqb (i_kind pi) KCommitted then None else Some EFailedPre
                                       end
